@@ -130,6 +130,7 @@ def h_norm(d: int, e: int, opt_eol: bool, fix: bool, dest: int, iea: int, ge: in
     pre: FAMILY != 'options' or (iea == 0 and ge == 0 and se == 0 and hl == 0)
     pre: FAMILY != 'counts' or (d == 0 and e == 1 and dest == 0 and opt_eol)
     pre: FAMILY != 'counts' or (iea in TOKQ and ge in TOKQ and se in TOKQ and hl in TOKQ)
+    pre: IEAFIX is None or iea == IEAFIX
     post: _
     '''
     text, segs = make_doc(d, EOLS[e], iea, ge, se, hl)
@@ -175,6 +176,7 @@ def h_norm(d: int, e: int, opt_eol: bool, fix: bool, dest: int, iea: int, ge: in
 
 FAMILY = P('family', 'options')
 TOKQ = tuple(P('tokq', [0, 2, 4]))
+IEAFIX = P('ieafix', None)
 
 
 def _ob(name, fn, tier, timeout, kind='ch', **params):
@@ -186,7 +188,7 @@ OBLIGATIONS = [
     _ob('norm_counts', 'h_norm', 'quick', 3600, family='counts'),
     _ob('norm_options_two_interchanges', 'h_norm', 'quick', 3600, family='options', shape=1),
     _ob('norm_options_empty_group', 'h_norm', 'quick', 3600, family='options', shape=2),
-    _ob('norm_counts_all_tokens', 'h_norm', 'thorough', 14400, family='counts', tokq=[0, 1, 2, 3, 4, 5]),
+] + [_ob('norm_counts_all_tokens_iea%d' % k, 'h_norm', 'thorough', 7200, family='counts', tokq=[0, 1, 2, 3, 4, 5], ieafix=k) for k in range(6)] + [
 ]
 
 LEVEL = 'other'
